@@ -149,7 +149,7 @@ def r2_updates(ctx):
             ([[0, 1, 2], [0, 2, 1], [0, 1, 2]], [9.0, 4.0, 2.0]),
             ([[0, 1, 2], [0, 1, 2], [0, 2, 1]], [1.0, 8.0, 8.0]),
         ]
-        for (tours, objs), rho, base in itertools.product(scen, (0.5, 0.1), (1.0, 0.01, 50.0)):
+        for (tours, objs), rho, base in itertools.product(scen, (0.5, 0.1, 0.0, 1.0), (1.0, 0.01, 50.0)):      # (evaporation 0 and 1: nothing / everything evaporates)
             vals = {}
             lo, hi = 0.05, 5.0
             if kind == "as":
